@@ -40,7 +40,11 @@ func partialHashes(v string) []string {
 func build(s State) (*migrate.MemDir, *fake.Driver, *fake.Revs, *migrate.Executor, error) {
 	dir := &migrate.MemDir{}
 	for i, v := range s.Versions {
-		if err := dir.WriteFile(v+"_f.sql", []byte(body(v, s.Ck[i]))); err != nil {
+		b := body(v, s.Ck[i])
+		if s.CRLF {
+			b = strings.ReplaceAll(b, "\n", "\r\n")
+		}
+		if err := dir.WriteFile(v+"_f.sql", []byte(b)); err != nil {
 			return nil, nil, nil, nil, err
 		}
 	}
